@@ -127,7 +127,7 @@ Definition feat_of (bits : N) (s : string) : bool :=
 Definition mem_of (base : N) (bytes : list N) (a : N) : N :=
   if (base <=? a) then nth (N.to_nat (a - base)) bytes 0 else 0.
 
-Definition env_of (k : case) : env := mkEnv (feat_of (k_cfg k)) (mem_of (k_addr k) (k_bytes k)).
+Definition env_of (k : case) : env := mkEnv (feat_of (k_cfg k)) (mem_of (k_addr k) (k_bytes k)) (fun _ _ => 0).
 Definition cty_of (k : case) : cty := mkCty (k_B k) (k_B k) (valid_kind (k_kind k)).
 
 Definition src_slice (k : case) : slice := mkSlice (mkPtr (k_addr k) (k_len k * sz (k_A k))) (k_len k).
